@@ -216,6 +216,8 @@ func genC04(t *rapid.T) gen.ProgCase {
 }
 
 func TestC04(t *testing.T) {
+	fileRoute = true
+	defer func() { fileRoute = false }()
 	c04rec = newRecorder("C04x")
 	defer c04rec.flush()
 	defer theNode.stop()
